@@ -38,8 +38,8 @@ var propDefs = map[string]PropDef{
 	"C10": {Classes: []string{"POST", "INV", "PRE", "LEMMA"}, Level: "proof"},
 	"C11": {Classes: []string{"FRAME"}, Level: "proof", Skip: graphSetPosts},
 	"C12": {Classes: []string{"OWN", "POST", "INV"}, Level: "proof", Skip: without(graphSetPosts, "C12:inv")},
-	"C13": {Classes: []string{"POST", "LEMMA", "PRE", "INV"}, Level: "proof"},
-	"C14": {Classes: []string{"POST", "INV", "PRE", "LEMMA"}, Level: "proof", Skip: graphSetPosts},
+	"C13": {Classes: []string{"POST", "LEMMA", "PRE", "INV", "READS"}, Level: "proof"},
+	"C14": {Classes: []string{"POST", "INV", "PRE", "LEMMA", "READS"}, Level: "proof", Skip: graphSetPosts},
 	"C15": {Classes: []string{"SAFE", "POST", "INV", "PRE", "LEMMA"}, Level: "proof"},
 	"C16": {Classes: []string{"POST", "INV", "PRE", "LEMMA"}, Level: "proof", Skip: without(graphSetPosts, "C16:inv", "C16:roots:", "C16:purlType:")},
 	"C17": {Classes: []string{"LOCK"}, Level: "proof"},
